@@ -12,8 +12,8 @@ The model is three-valued.  For a hand-written document it says
   * which constraints (field, kind, value) a faithful re-serialisation MUST
     still carry (`expected_constraints`) and how two values are compared
     (`same_value`: numbers by type and exact value incl. the sign of zero,
-    lists whose order the document declares insignificant as multisets, date
-    bounds of date-typed fields as instants);
+    lists whose order the document declares insignificant as sets, date
+    bounds as instants);
   * what is left open (UNSPEC): null-valued constraints may be kept or dropped,
     unknown kinds / '#' keys may be kept or dropped in the output, key order
     is free, a field left without any constraint may be kept or dropped, date
@@ -126,10 +126,13 @@ def same_value(kind, a, b, date_typed):
             return UNSPEC if date_typed else False
         return ia == ib
     if isinstance(a, list):
-        if not isinstance(b, list) or len(a) != len(b):
+        if not isinstance(b, list):
             return False
         if kind in UNORDERED_LIST_KINDS:
-            return sorted(_canon(x) for x in a) == sorted(_canon(x) for x in b)
+            # "order is not significant"; a repeated entry adds nothing
+            return set(_canon(x) for x in a) == set(_canon(x) for x in b)
+        if len(a) != len(b):
+            return False
         return all(same_scalar(x, y) for x, y in zip(a, b))
     if isinstance(a, (dict, list)) or isinstance(b, (dict, list)):
         return a == b
